@@ -1,5 +1,6 @@
 (** C07 — property theorems only. *)
-From V Require Import Base.Util Gql.Ast Peg.Peg Gen.C07_grammar_gen C07.Builder C07.Model C07.AstEq C07.Spec C07.Proofs.
+From V Require Import Base.Util Gql.Ast Peg.Peg Gen.C07_grammar_gen C07.Builder C07.Model C07.AstEq C07.Spec C07.Proofs C07.Lexical.
+From V Require Import Peg.PegProps.
 
 Theorem C07_positions_true : forall inp file (p : pair rule),
   no_lone_cr inp = true ->
@@ -31,3 +32,39 @@ Print Assumptions C07_object_type_without_fields_refuted.
 Theorem C07_union_without_members_refuted : parse_type_system_document 0 w_union_no_members = PErr.
 Proof. exact union_without_members_refuted. Qed.
 Print Assumptions C07_union_without_members_refuted.
+
+(** every pair anywhere in the tree the parser returns is the trace of a successful run of its rule's
+    body on exactly its span of the input -- any input, any start rule *)
+Theorem C07_pairs_replayable : forall inp start ps p,
+  parse_pairs start inp = Ok ps -> in_forest p ps -> replayable gql_grammar inp p.
+Proof. exact parse_pairs_replay. Qed.
+Print Assumptions C07_pairs_replayable.
+
+(** names: for every input and every Name pair of the tree, the identifier the builder makes from it
+    carries exactly the Name token that starts at the pair's offset (maximal munch), and -- when no CR
+    stands alone -- the specification's line/column of that offset *)
+Theorem C07_names_true : forall inp start ps file s e kids,
+  parse_pairs start inp = Ok ps ->
+  in_forest (Pair R_Name s e kids) ps ->
+  let p := Pair R_Name s e kids in
+  kids = [] /\
+  name_at (skipn (N.to_nat s) inp) (iname (to_ident inp file p)) = true /\
+  (no_lone_cr inp = true ->
+   ipos (to_ident inp file p) = mkPos (fst (spec_line_col inp s)) (snd (spec_line_col inp s)) file false).
+Proof. exact name_pairs_true. Qed.
+Print Assumptions C07_names_true.
+
+(** keywords: the same for every rule of the shape @{ "word" ~ !NameContinue } (all 21 keyword rules:
+    Lexical.keyword_rules_covered) *)
+Theorem C07_keywords_true : forall inp start ps file r l s e kids,
+  parse_pairs start inp = Ok ps ->
+  in_forest (Pair r s e kids) ps ->
+  keyword_of r = Some l ->
+  let p := Pair r s e kids in
+  kids = [] /\
+  kw_name (to_keyword inp file p) = l /\
+  (is_name l = true -> name_at (skipn (N.to_nat s) inp) l = true) /\
+  (no_lone_cr inp = true ->
+   kw_pos (to_keyword inp file p) = mkPos (fst (spec_line_col inp s)) (snd (spec_line_col inp s)) file false).
+Proof. exact keyword_pairs_true. Qed.
+Print Assumptions C07_keywords_true.
